@@ -348,6 +348,28 @@ def extra_obligations(w, tier, seed):
         out.append(ob(oid, '%s: every local value flowing into the descriptor bytes is determined by the arguments of %s (equal ids => identical descriptors)' % (fname, ast.unparse(call.func)),
                       not missing, 'edb/server/compiler/sertypes.py:%s line %d: %s' % (fname, fn.lineno, sorted(missing))))
     out += _call_site_obligations()
+    # the contracts model a context's descriptor stream (buffer / anno_buffer / uuid_to_pos) BY VALUE: sound only if no two contexts ever share one of these containers.
+    # Ownership obligation over sertypes.py: each of the three attributes is only ever assigned a fresh container ([] / {} / <x>.copy() / list(..) / dict(..)), and a
+    # Context is never duplicated wholesale (copy.copy / copy.deepcopy / __dict__ updates), which would share them.
+    tree = repo.module(SER).tree
+    bad = []; seen = 0
+    for n in ast.walk(tree):
+        if isinstance(n, (ast.Assign, ast.AnnAssign)):
+            tg = n.targets if isinstance(n, ast.Assign) else [n.target]
+            for t in tg:
+                if isinstance(t, ast.Attribute) and t.attr in ('buffer', 'anno_buffer', 'uuid_to_pos') and n.value is not None:
+                    seen += 1; v = n.value; txt = ast.unparse(v)
+                    fresh_ = (isinstance(v, (ast.List, ast.Dict)) and not (getattr(v, 'elts', None) or getattr(v, 'keys', None))) or \
+                             (isinstance(v, ast.Call) and ((isinstance(v.func, ast.Attribute) and v.func.attr == 'copy' and not v.args) or ast.unparse(v.func) in ('list', 'dict')))
+                    if not fresh_: bad.append('line %d: %s = %s' % (n.lineno, ast.unparse(t), txt[:40]))
+        if isinstance(n, ast.Call) and ast.unparse(n.func) in ('copy.copy', 'copy.deepcopy', 'copy', 'deepcopy') and n.args and ast.unparse(n.args[0]) in ('self', 'ctx', 'context'):
+            bad.append('line %d: %s duplicates a context together with its stream containers' % (n.lineno, ast.unparse(n)))
+        if isinstance(n, ast.Attribute) and n.attr == '__dict__' and isinstance(n.value, ast.Name) and n.value.id in ('self', 'ctx'):
+            bad.append('line %d: %s.__dict__ used' % (n.lineno, n.value.id))
+    out.append(dict(id='scan/context/stream-containers-not-shared', kind='ownership', tag='property', paths=1, status='discharged' if (seen >= 6 and not bad) else ('failed' if bad else 'unknown'),
+                    backend='ast-scan', seconds=0.0, clause='sertypes.py: Context.buffer / anno_buffer / uuid_to_pos are only assigned fresh containers and a Context is never shallow-copied '
+                    '(two contexts never write into the same descriptor stream)', model=None if (seen >= 6 and not bad) else {'offending_source_location': bad},
+                    where='; '.join(bad) or '%d assignments' % seen, function='ast-scan'))
     return out
 
 def _call_site_obligations():
